@@ -92,6 +92,7 @@ type c16Host struct {
 	stash    []*roaEvent
 	timers   []c16Timer
 	held     []c16Held
+	repBad   bool // a reported-figure divergence has been reported for this case
 	syncs    int // completed responses (End of Data handled) so far
 	incarn   int // AddServer calls so far
 
@@ -234,6 +235,16 @@ func c16B(b bool) int {
 
 func (s *c16Srv) dump() string {
 	l, _ := s.m.table.List(0)
+	// sort.Slice is not stable beyond 12 entries: runs of equal (network, max length, AS) are ordered by source
+	for a := 0; a < len(l); {
+		b := a + 1
+		for b < len(l) && l[b].Network.String() == l[a].Network.String() && l[b].MaxLen == l[a].MaxLen && l[b].AS == l[a].AS {
+			b++
+		}
+		run := l[a:b]
+		sort.SliceStable(run, func(x, y int) bool { return s.hostOf(run[x].Src).idx < s.hostOf(run[y].Src).idx })
+		a = b
+	}
 	parts := make([]string, 0, len(l)+8)
 	parts = append(parts, "T")
 	for _, r := range l {
@@ -266,7 +277,53 @@ func (s *c16Srv) dump() string {
 		parts = append(parts, fmt.Sprintf("%d:%d,%d,%d,%d,%d,%s,%d,%s", h.idx, c.sessionID, c.oldSessionID, c.serialNumber,
 			c16B(c.endOfData), len(c.pendingROAs), conn, s.seen[c.timer], qs))
 	}
+	parts = append(parts, "|", "R")
+	rep := s.reported()
+	for _, h := range s.hosts {
+		if r, ok := rep[h.idx]; ok {
+			parts = append(parts, fmt.Sprintf("%d:%d,%d,%d,%d,%d,%d", h.idx, c16B(r.up), r.serial, r.n[0], r.n[1], r.n[2], r.n[3]))
+		}
+	}
 	return strings.Join(parts, " ")
+}
+
+type c16Reported struct {
+	up     bool
+	serial uint32
+	n      [4]uint32 // records v4, v6, prefixes v4, v6
+}
+
+// reported = what GetServers (ListRpki) says per configured cache
+func (s *c16Srv) reported() map[int]c16Reported {
+	out := map[int]c16Reported{}
+	for _, r := range s.m.GetServers() {
+		h := s.hostOf(net.JoinHostPort(r.Config.Address.String(), fmt.Sprint(r.Config.Port)))
+		if h == nil {
+			s.o.fail("reported-unknown-server", map[string]any{"trace": append([]string{}, s.trace...), "address": r.Config.Address.String(), "port": r.Config.Port})
+			continue
+		}
+		if _, dup := out[h.idx]; dup {
+			s.o.fail("reported-server-twice", map[string]any{"trace": append([]string{}, s.trace...), "cache": h.idx})
+		}
+		out[h.idx] = c16Reported{r.State.Up, r.State.SerialNumber,
+			[4]uint32{r.State.RecordsV4, r.State.RecordsV6, r.State.PrefixesV4, r.State.PrefixesV6}}
+	}
+	return out
+}
+
+func c16Recount(recs map[string]c16Rec) [4]uint32 {
+	var n [4]uint32
+	pf := [2]map[string]bool{{}, {}}
+	for _, r := range recs {
+		f := 0
+		if r.p.Addr().Is6() {
+			f = 1
+		}
+		n[f]++
+		pf[f][r.p.String()] = true
+	}
+	n[2], n[3] = uint32(len(pf[0])), uint32(len(pf[1]))
+	return n
 }
 
 // view = the records the table holds for h
@@ -318,6 +375,50 @@ func (s *c16Srv) check() {
 			return
 		}
 		seen[k] = true
+	}
+	// every reported figure is a recount of the table's set per source …
+	rep := s.reported()
+	for _, h := range s.hosts {
+		r, ok := rep[h.idx]
+		if ok != (s.client(h) != nil) {
+			s.o.fail("reported-servers-differ-from-configured", map[string]any{"trace": append([]string{}, s.trace...), "cache": h.idx})
+			continue
+		}
+		if !ok {
+			continue
+		}
+		if want := c16Recount(s.view(h)); r.n != want && !h.repBad {
+			h.repBad = true
+			s.o.fail("reported-counters-differ-from-table", map[string]any{"trace": append([]string{}, s.trace...), "cache": h.idx,
+				"reported_records_v4_v6_prefixes_v4_v6": r.n, "recount_of_the_listed_records": want, "listed": c16Keys(s.view(h))})
+		}
+		if h.expect != nil {
+			if want := c16Recount(h.expect); r.n != want && !h.repBad {
+				h.repBad = true
+				s.o.fail("reported-counters-differ-from-announced-set", map[string]any{"trace": append([]string{}, s.trace...), "cache": h.idx,
+					"reported_records_v4_v6_prefixes_v4_v6": r.n, "recount_of_announced_and_not_withdrawn": want})
+			}
+			if r.n[2]+r.n[3] > 0 {
+				s.o.stat("reported_counters_checked_against_announced_set", 1)
+			}
+		}
+		if c := s.client(h); r.serial != c.serialNumber || r.up != (c.conn != nil) {
+			s.o.fail("reported-session-state", map[string]any{"trace": append([]string{}, s.trace...), "cache": h.idx})
+		}
+	}
+	// … and so is the ListRpkiTable listing: the API conversion of the list, entry for entry
+	api := newRoaListFromTableStructList(l)
+	if len(api) != len(l) {
+		s.o.fail("listing-differs-from-table", map[string]any{"trace": append([]string{}, s.trace...), "listed": len(api), "table": len(l)})
+	} else {
+		for i, a := range api {
+			ones, _ := l[i].Network.Mask.Size()
+			if a.Asn != l[i].AS || a.Maxlen != uint32(l[i].MaxLen) || a.Prefixlen != uint32(ones) || a.Prefix != l[i].Network.IP.String() ||
+				net.JoinHostPort(a.Conf.Address, fmt.Sprint(a.Conf.RemotePort)) != l[i].Src {
+				s.o.fail("listing-differs-from-table", map[string]any{"trace": append([]string{}, s.trace...), "entry": i, "listed": fmt.Sprint(a), "record": s.showROA(l[i])})
+				break
+			}
+		}
 	}
 	for _, h := range s.hosts {
 		if h.expect == nil {
@@ -1000,7 +1101,7 @@ func (s *c16Srv) newManager() {
 	s.trace = s.trace[:0]
 	for _, h := range s.hosts {
 		h.phase, h.srv, h.stash, h.timers, h.syncs = c16Absent, nil, nil, nil, 0
-		h.held, h.incarn = nil, 0
+		h.held, h.incarn, h.repBad = nil, 0, false
 		h.expect, h.queries = nil, nil
 		h.db = map[string]c16Rec{}
 		h.deltas = map[uint32][]c16Delta{}
@@ -1244,7 +1345,7 @@ func (s *c16Srv) corpus() {
 
 	// 3c. the timer has fired, its event waits in the channel while End of Data of the new
 	// synchronisation is handled (Stop comes too late), and is handled afterwards
-	for variant := 0; variant < 4; variant++ {
+	for variant := 0; variant < 6; variant++ {
 		s.newManager()
 		a.db[recA.key()] = recA
 		s.addServer(a)
@@ -1266,6 +1367,17 @@ func (s *c16Srv) corpus() {
 			a.session, a.deltas = 0, map[uint32][]c16Delta{}
 			s.addServer(a)
 			s.settle(a)
+		}
+		if variant >= 4 { // … or the re-created server has already armed ITS first timer when the
+			// event of the deleted client's timer arrives (same session id / another one)
+			s.deleteServer(a)
+			if variant == 5 {
+				s.cacheRestart(a)
+			}
+			s.addServer(a)
+			s.settle(a)
+			s.closeConn(a)
+			s.disconnected(a)
 		}
 		s.deliver(a)
 		for s.fire(a) { // the timer armed by the second disconnect is a legitimate one
@@ -1316,6 +1428,35 @@ func (s *c16Srv) corpus() {
 		// after End of Data: the near-duplicate comes and goes while the record stays
 		s.unsolicitedRec(a, true, dup)
 		s.unsolicitedRec(a, false, dup)
+		s.endCase()
+	}
+
+	// 3f. what is reported: two caches hold records for one prefix whose entries interleave in the
+	// bucket order (A: max length 16 and 24, B: 20); each has ONE prefix — after the full
+	// synchronisation, after a serial update, after B is removed, after A's lifetime runs out
+	{
+		p16 := netip.MustParsePrefix("10.1.0.0/16")
+		s.newManager()
+		a.db = map[string]c16Rec{}
+		b.db = map[string]c16Rec{}
+		for _, x := range []c16Rec{{p16, 16, 100}, {p16, 24, 100}, {netip.MustParsePrefix("2001:db8::/32"), 32, 100}, {netip.MustParsePrefix("2001:db8::/32"), 48, 100}} {
+			a.db[x.key()] = x
+		}
+		for _, x := range []c16Rec{{p16, 20, 100}, {p16, 16, 200}, {netip.MustParsePrefix("2001:db8::/32"), 40, 100}} {
+			b.db[x.key()] = x
+		}
+		s.addServer(a)
+		s.addServer(b)
+		s.settle(a)
+		s.settle(b)
+		s.cacheMutate(b)
+		s.pduNotify(b, b.session, b.serial)
+		s.settle(b)
+		s.deleteServer(b)
+		s.closeConn(a)
+		s.disconnected(a)
+		for s.fire(a) {
+		}
 		s.endCase()
 	}
 
@@ -1400,6 +1541,22 @@ func TestVerifC16Server(t *testing.T) {
 		nh := 1 + r.intn(3) // configured caches
 		for i := 0; i < nh; i++ {
 			s.populate(s.hosts[i], r.intn(6))
+			if i > 0 && r.chance(60) { // another cache holds near-duplicates (same prefix, interleaving max length / AS)
+				for _, k := range c16Keys(s.hosts[0].db) {
+					if r.chance(70) {
+						x := s.hosts[0].db[k]
+						y := x
+						if r.chance(50) {
+							y.as = c16ASes[r.intn(len(c16ASes))]
+						}
+						if ml := int(x.maxLen) + r.pick(-2, -1, 1, 2, 3); ml >= x.p.Bits() && ml <= x.p.Addr().BitLen() {
+							y.maxLen = uint8(ml)
+						}
+						s.hosts[i].db[y.key()] = y
+					}
+				}
+				o.stat("case_caches_share_prefixes", 1)
+			}
 			if i > 0 && r.chance(50) { // two caches announcing the same records
 				for _, k := range c16Keys(s.hosts[0].db) {
 					if r.chance(60) {
@@ -1421,6 +1578,20 @@ func TestVerifC16Server(t *testing.T) {
 			if len(h.held) > 0 && r.chance(20) {
 				s.deliver(h)
 				o.stat("step_late_timeout_delivered", 1)
+				continue
+			}
+			if len(h.held) > 0 && !chaos && r.chance(12) {
+				// the server is deleted and created again while a timeout event of its old timer is
+				// still on its way; the new client synchronises, loses its session, then the event arrives
+				s.deleteServer(h)
+				s.addServer(h)
+				s.settle(h)
+				if h.phase == c16Open && r.chance(70) {
+					s.closeConn(h)
+					s.disconnected(h)
+				}
+				s.deliver(h)
+				o.stat("step_recreated_server_gets_old_timeout", 1)
 				continue
 			}
 			k := r.intn(100)
